@@ -640,6 +640,32 @@ var attacks = []attack{
 		b.hashed[1], b.docDGs[1] = d, d // genuinely signed by the national DS, only the issuing state is foreign
 		return g, b, err
 	}},
+	// A DS certificate whose issuer name carries no country (issued with the genuine CSCA key - only the
+	// generator can make this "issuer error"): there is no issuing country, so no CA certificate "of the
+	// same issuing country" exists for it.  The document is a partial read without DG1, so the DG1 / DS
+	// country comparison cannot step in.
+	{name: "ds-issuer-name-without-country-partial-document", sdLevel: false, prepare: func(c *ctx) (variant, variant, error) {
+		g, b := c.baseVariant(), c.baseVariant()
+		delete(g.docDGs, 1)
+		delete(b.docDGs, 1)
+		bad, err := c.pki.IssueDS(c.pki.DSKey, c.pki.DS.Tmpl.Subject, func(dt *issuer.CertTemplate) {
+			var n issuer.Name
+			for _, rdn := range dt.Issuer {
+				keep := true
+				for _, av := range rdn {
+					if av.OID == issuer.OidCountry {
+						keep = false
+					}
+				}
+				if keep {
+					n = append(n, rdn)
+				}
+			}
+			dt.Issuer = n
+		})
+		b.signer = bad
+		return g, b, err
+	}},
 	// A forger without any key alters DG1 and the hash list, keeps the stale signature, and plays with
 	// the fields of the CMS structure that no signature covers (versions, digest algorithm set, embedded
 	// certificates): none of them may switch the verification off.
